@@ -53,6 +53,11 @@ def _check_case(case):
         info2 = _check_on(S, case)
         info["classes"] = sorted(set(info["classes"]) | {"after-membership-swap"})
         info["nt"] = info["nt"] or info2["nt"]
+    if case.get("take", 0) in (1, 3) and case.get("pad", 0) < 100:
+        # ... and on a copy (deepcopy / pickle / nrpickler) of the world that has just been traversed
+        S.replace_by_copy(case["take"] + len(S.vs))
+        _check_on(S, case)
+        info["classes"] = sorted(set(info["classes"]) | {"on-copy-of-traversed-graph"})
     return info
 
 
